@@ -288,7 +288,10 @@ pub fn sprinkle_splits(rng: &mut Rng, script: &mut Vec<Op>) {
     let mut out = Vec::with_capacity(script.len() + 4);
     for op in script.drain(..) {
         if matches!(op, Op::Request { .. }) && rng.chance(1, 5) {
-            out.push(Op::SplitNext(*rng.pick(&[1usize, 2, 3, 9, 10, 11, 12, 17, 26, 27, 28, 40])));
+            // (292 octets is one full link frame: a cut there falls between two transport segments of a long fragment)
+            out.push(Op::SplitNext(*rng.pick(&[
+                1usize, 2, 3, 9, 10, 11, 12, 17, 26, 27, 28, 40, 292, 292, 293, 302, 584,
+            ])));
         }
         out.push(op);
     }
